@@ -16,8 +16,8 @@ def _all(f):
     return True
 
 
-prop("C03", ["take_range", "sort_take", "limit_clause", "flatten_sort", "sort_infer", "lower_transform", "split_order", "sort_names", "dialect_flags", "group_take", "range_sugar", "pl_fold"],
-     select={"pl_fold": lambda n: n.split(".", 1)[1] in ("PTK1", "PTK2", "PT1", "PS1", "PS2", "PR1", "PO1", "PE1", "PE2", "PX1") or n.endswith(".safety"), "range_sugar": lambda n: n.split(".", 1)[1] in ("ER1", "RR1", "RR2", "RR3", "RN1", "RT1", "RF1", "TK1", "TK2", "TK3", "EN1") or n.endswith(".safety"), "dialect_flags": lambda n: n.rsplit(".", 1)[1] in ("use_fetch", "limit_for_bare_offset"), "split_order": lambda n: n.split(".", 1)[1] in ("RO1", "RO2", "RO3", "reorder_should_swap.safety", "IC1", "IC2", "IC3") or n.split(".", 1)[1].startswith("SO1.Take.")},
+prop("C03", ["take_range", "sort_take", "limit_clause", "flatten_sort", "sort_infer", "lower_transform", "split_order", "sort_names", "dialect_flags", "group_take", "range_sugar", "pl_fold", "cid_inline"],
+     select={"cid_inline": lambda n: n.split(".", 1)[1] in ("CP1", "CP2", "post_column_slice.safety", "post_column_slice.unwrap"), "pl_fold": lambda n: n.split(".", 1)[1] in ("PTK1", "PTK2", "PT1", "PS1", "PS2", "PR1", "PO1", "PE1", "PE2", "PX1") or n.endswith(".safety"), "range_sugar": lambda n: n.split(".", 1)[1] in ("ER1", "RR1", "RR2", "RR3", "RN1", "RT1", "RF1", "TK1", "TK2", "TK3", "EN1") or n.endswith(".safety"), "dialect_flags": lambda n: n.rsplit(".", 1)[1] in ("use_fetch", "limit_for_bare_offset"), "split_order": lambda n: n.split(".", 1)[1] in ("RO1", "RO2", "RO3", "reorder_should_swap.safety", "IC1", "IC2", "IC3") or n.split(".", 1)[1].startswith("SO1.Take.")},
      not_covered="alias_last_sorting and CidRedirector::redirect_sorts (how the sorting is re-expressed across cid redirects: folds over PQ with HashMap state); the driver loops of the sort inference (its step and the CTE record are under contract), "
                  "ensure_names for sort columns; the recursion of Flattener::fold_expr itself (the arms are proved against its contract)")
 
@@ -43,7 +43,7 @@ claim("C03",
       "take when there is one and the inherited sorting otherwise (sort_take ST1-3), the emitted OFFSET / LIMIT / FETCH carry exactly those numbers and the "
       "ORDER BY list is kept in order (limit_clause LC2, LC2l, LC5), empty selections are encoded as LIMIT 0 and never as a "
       "negative limit (TR3o), no arithmetic panic (checked composition), and validate_take_range accepts exactly positive integer "
-      "bounds (TR4). the SQL side of sort persistence, per step: every arm of SortingInference::fold_sql_transforms and the record of a CTE's sorting (sort_infer SI0-8, CS1-2; the driver loops, alias_last_sorting and the cid redirection are NOT under contract). lowering turns a `take` call into Take { range, partition = the call's partition, sort = the call's sort } and a `sort` call into Sort of the lowered keys (lower_transform LT1, LT6). NOT proved: the end-to-end sentence of C03.",
+      "bounds (TR4). the SQL side of sort persistence, per step: every arm of SortingInference::fold_sql_transforms and the record of a CTE's sorting (sort_infer SI0-8, CS1-2; the driver loops, alias_last_sorting and the cid redirection are NOT under contract). lowering turns a `take` call into Take { range, partition = the call's partition, sort = the call's sort } and a `sort` call into Sort of the lowered keys (lower_transform LT1, LT6). the ORDER BY written after a SELECT's projection names a column by the name recorded for it at the split (`_expr_0` for a column whose own name another expression of the SELECT took), never by the column's own name (cid_inline CP1). NOT proved: the end-to-end sentence of C03.",
       "Trusted: unpack_as_int_literal / bound_as_int by contract (enum_as_inner accessors), Option::transpose/zip and Ord::min by "
       "assume_specification, that the database implements OFFSET/LIMIT; the slice drops the rest of translate_select_pipeline.")
 
